@@ -39,6 +39,12 @@ AlphaQ       == {"a", ".", "[", "]", "-", "!"}
 LitQ         == {"-", "]", "!"}
 CollMacros   == {"[.-.]", "[.^.]", "[.].]", "[=a=]"}
 AlphaClass   == {"a", "1", "-", "[", "]", "!"}
+\* every ASCII punctuation character (an escape of any of them may be special
+\* in the regular-expression language) and one letter
+AlphaPunct   == {"!", "\"", "#", "$", "%", "&", "'", "(", ")", "*", "+", ",", "-", ".", "/", ":", ";", "<", "=", ">",
+                 "?", "@", "[", "\\", "]", "^", "_", "`", "{", "|", "}", "~", "a"}
+\* patterns that the implementation rejects (POSIX leaves their meaning open)
+ShellMacros  == {"[b-a]", "[[:x:]]"}
 \* characters that are operators of the regular-expression language only
 AlphaSet     == {"a", "&", "~", "-", "[", "]", "!"}
 StrSet       == {"a", "&", "~", "-"}
@@ -47,7 +53,7 @@ StrRegex     == {"a", "+", "(", ")", "|", "$", "{", "}", "\n"}
 StrFull      == {"a", "b", ".", "-", "]", "^"}
 StrSmall     == {"a", ".", "-", "]"}
 StrTiny      == {"a", ".", "-"}
-AlphaSh      == {"a", ".", "*", "?", "[", "]", "-"}
+AlphaSh      == {"a", ".", "*", "[", "]", "-"}
 LitSh        == {"*", "[", "-"}
 StrClass     == {"a", "A", "1", "-", " ", "]"}
 StrWide      == {"a", "b", ".", "-", "]", "^", "[", "\\", "*", "!"}
@@ -63,13 +69,14 @@ RECURSIVE Join(_)
 Join(s) == IF Len(s) = 0 THEN "" ELSE s[1] \o Join(Tail(s))
 DomStr == [s \in Dom |-> Join(s)]
 
-\* `case` statement of the shell binding: the pattern under test is the only
-\* pattern of the first item; these are the items after it (all unquoted).
-CaseRest == << <<"a*", "*.">>, <<"*">> >>
-CaseRestA == [i \in 1..Len(CaseRest) |->
-                [j \in 1..Len(CaseRest[i]) |-> Parse(WithoutEscape(Explode(CaseRest[i][j]))).atoms]]
+\* `case` statement of the shell binding:
+\*    case s in (P|a*) 1;; (*.) 2;; (*) 3;; esac        P = the pattern under test
+CaseAlt  == "a*"
+CaseRest == << <<"*.">>, <<"*">> >>
+PA(str) == Parse(WithoutEscape(Explode(str))).atoms
+CaseRestA == [i \in 1..Len(CaseRest) |-> [j \in 1..Len(CaseRest[i]) |-> PA(CaseRest[i][j])]]
 
-ASSUME PrintT(ToJson([dom |-> {DomStr[s] : s \in Dom}, case_rest |-> CaseRest]))
+ASSUME PrintT(ToJson([dom |-> {DomStr[s] : s \in Dom}, case_alt |-> CaseAlt, case_rest |-> CaseRest]))
 
 VARIABLES p, n
 vars == <<p, n>>
@@ -100,22 +107,30 @@ Line ==
       m  |-> {DomStr[s] : s \in MS},
       x  |-> {DomStr[s] : s \in XS}]
 
-\* ${s#p} ${s##p} ${s%p} ${s%%p} and the number of the case item selected
+\* ${s#p} ${s##p} ${s%p} ${s%%p} and the numbers of the case items that may be
+\* selected.  Row: <<s, four trim results, c1, c2>>; the item selected must be c1
+\* or c2 ("0": none).  For a pattern with a defined meaning c1 = c2.  A pattern
+\* whose meaning POSIX leaves open (u # "") denotes SOME set of strings: the
+\* trims are not compared, and the first item is selected if the alternative
+\* a* matches, else either the first item or whatever the later items select.
 ShellLine ==
-  LET P  == Parse(p)
-      A  == P.atoms
-      ok == P.un = {} /\ ~P.mc
+  LET P   == Parse(p)
+      A   == P.atoms
+      ok  == P.un = {} /\ ~P.mc
+      Sel(s)  == CaseSelectA(s, <<<<A, PA(CaseAlt)>>>> \o CaseRestA)
+      Rest(s) == CaseSelectA(s, <<<<PA(CaseAlt)>>>> \o CaseRestA)
   IN [c  |-> [i \in 1..Len(p) |-> p[i].c],
       l  |-> [i \in 1..Len(p) |-> IF p[i].l THEN 1 ELSE 0],
       u  |-> IF P.un = {} THEN (IF P.mc THEN "multi-character collating symbol" ELSE "")
              ELSE CHOOSE r \in P.un : TRUE,
       cs |-> {Join(s) : s \in Syms(A)},
       nt |-> ShapeNotes(A),
-      sh |-> IF ~ok THEN {} ELSE
-             {<< DomStr[s],
-                               Join(TrimPrefixA(A, s, FALSE)), Join(TrimPrefixA(A, s, TRUE)),
-                               Join(TrimSuffixA(A, s, FALSE)), Join(TrimSuffixA(A, s, TRUE)),
-                               ToString(CaseSelectA(s, <<<<A>>>> \o CaseRestA)) >> : s \in Dom}]
+      sh |-> IF ok
+             THEN {<< DomStr[s],
+                      Join(TrimPrefixA(A, s, FALSE)), Join(TrimPrefixA(A, s, TRUE)),
+                      Join(TrimSuffixA(A, s, FALSE)), Join(TrimSuffixA(A, s, TRUE)),
+                      ToString(Sel(s)), ToString(Sel(s)) >> : s \in Dom}
+             ELSE {<< DomStr[s], "", "", "", "", "1", ToString(Rest(s)) >> : s \in Dom}]
 
 Emit == PrintT(ToJson(IF Kind = "shell" THEN ShellLine ELSE Line))
 =============================================================================
